@@ -993,12 +993,13 @@ func operandString(n Node, minPrec int) string {
 	return n.String()
 }
 
-// quoteString quotes s as a Soy string literal.
+// quoteString quotes s as a Soy string literal.  (Bytewise: the escapes are
+// ASCII, and text that is not valid UTF-8 must come out as it went in.)
 func quoteString(s string) string {
 	var b bytes.Buffer
 	b.WriteByte('\'')
-	for _, ch := range s {
-		switch ch {
+	for i := 0; i < len(s); i++ {
+		switch s[i] {
 		case '\\':
 			b.WriteString(`\\`)
 		case '\'':
@@ -1014,7 +1015,7 @@ func quoteString(s string) string {
 		case '\f':
 			b.WriteString(`\f`)
 		default:
-			b.WriteRune(ch)
+			b.WriteByte(s[i])
 		}
 	}
 	b.WriteByte('\'')
